@@ -466,6 +466,25 @@ pub fn run(ctx: &Ctx, id: &str) -> i32 {
                     r.count("non_fault_runs", 1);
                 }
             }
+            // the registration completion carries its optional fields (status byte with 'initialisation necessary' and other
+            // bits set): not a fault; and together with a wrong serial: still no command before the identity check
+            if shard == 2 % threads {
+                for op in OPS {
+                    for sb in [0x00u8, 0x01, 0x02, 0x80, 0xff] {
+                        let (mut sc, idx) = skeleton(op, &base_cfg);
+                        sc.plan.registration_status_byte = Some(sb);
+                        run_and_judge(r, id, &sc, idx, &schema, &format!("{op:?}: no fault, registration completion with status byte {sb:02x}"), true);
+                        let (mut sc, idx) = skeleton(op, &base_cfg);
+                        sc.plan.registration_status_byte = Some(sb);
+                        if op != Op::New {
+                            sc.plan.faults.push(FaultSpec { call: idx, at: At::Tx(0), kind: FaultKind::Close });
+                        }
+                        sc.plan.faults.push(FaultSpec { call: idx, at: At::PointOnce(Cmd::SystemInfo, 1), kind: FaultKind::WrongSerial });
+                        run_and_judge(r, id, &sc, idx, &schema, &format!("{op:?}: registration completion with status byte {sb:02x}, then a wrong serial"), true);
+                        r.count("registration_status_byte_runs", 2);
+                    }
+                }
+            }
             // a slow but healthy terminal: *every* packet of the operation arrives 10 / 25 s after the previous one (inside the
             // time the client waits for a packet; the operation as a whole takes minutes): success on the one connection
             if shard == 1 % threads {
